@@ -25,19 +25,53 @@ const DIM: usize = 128;
 enum Tx {
     Put(u64, u64),
     Del(u64),
+    /// `CompareAndSwap`: `None` = empty `expected_data` (what an absent key compares as)
+    Cas(u64, Option<u64>, u64),
 }
 impl Tx {
     fn show(&self) -> String {
         match self {
             Tx::Put(k, v) => format!("p{k}:{v}"),
             Tx::Del(k) => format!("d{k}"),
+            Tx::Cas(k, None, v) => format!("c{k}:-:{v}"),
+            Tx::Cas(k, Some(e), v) => format!("c{k}:{e}:{v}"),
         }
     }
     fn real(&self) -> Transaction {
         match self {
             Tx::Put(k, v) => Transaction::Put { key: format!("d{k}"), data: v.to_le_bytes().to_vec() },
             Tx::Del(k) => Transaction::Delete { key: format!("d{k}") },
+            Tx::Cas(k, e, v) => Transaction::CompareAndSwap { key: format!("d{k}"), expected_data: e.map(|e| e.to_le_bytes().to_vec()).unwrap_or_default(), new_data: v.to_le_bytes().to_vec() },
         }
+    }
+}
+fn le8(data: &[u8]) -> u64 {
+    let mut b = [0u8; 8];
+    for (i, x) in data.iter().take(8).enumerate() {
+        b[i] = *x;
+    }
+    u64::from_le_bytes(b)
+}
+/// what one transaction of the `d<k>` family does to a key/value image (the oracle's own replay)
+fn apply_to_image(img: &mut BTreeMap<u64, u64>, t: &Transaction) {
+    match t {
+        Transaction::Put { key, data } => {
+            img.insert(key[1..].parse().unwrap(), le8(data));
+        }
+        Transaction::Delete { key } => {
+            img.remove(&key[1..].parse::<u64>().unwrap());
+        }
+        Transaction::CompareAndSwap { key, expected_data, new_data } => {
+            let k: u64 = key[1..].parse().unwrap();
+            let matches = match img.get(&k) {
+                Some(cur) => expected_data.len() == 8 && le8(expected_data) == *cur,
+                None => expected_data.is_empty(),
+            };
+            if matches {
+                img.insert(k, le8(new_data));
+            }
+        }
+        _ => {}
     }
 }
 fn show_txs(t: &[Tx]) -> String {
@@ -57,6 +91,9 @@ fn show_real_tx(t: &Transaction) -> String {
             format!("p{}:{}", &key[1..], u64::from_le_bytes(b))
         }
         Transaction::Delete { key } => format!("d{}", &key[1..]),
+        Transaction::CompareAndSwap { key, expected_data, new_data } => {
+            format!("c{}:{}:{}", &key[1..], if expected_data.is_empty() { "-".to_string() } else { le8(expected_data).to_string() }, le8(new_data))
+        }
         _ => "other".into(),
     }
 }
@@ -192,8 +229,12 @@ enum Op {
     Begin(u64),
     Put(usize, u64, u64),
     Del(usize, u64),
+    Cas(usize, u64, Option<u64>, u64),
     Commit(usize),
     Rollback(usize),
+    /// restart: a new `TensorChain` object (same identity) over the same store + `initialize()`
+    Reopen,
+    History(u64),
     State,
 }
 fn show_op(o: &Op) -> String {
@@ -201,8 +242,11 @@ fn show_op(o: &Op) -> String {
         Op::Begin(d) => format!("begin dir={d}"),
         Op::Put(w, k, v) => format!("put {w} {k} {v}"),
         Op::Del(w, k) => format!("del {w} {k}"),
+        Op::Cas(w, k, e, v) => format!("cas {w} {k} {} {v}", e.map_or("-".to_string(), |e| e.to_string())),
         Op::Commit(w) => format!("commit {w}"),
         Op::Rollback(w) => format!("rollback {w}"),
+        Op::Reopen => "reopen".into(),
+        Op::History(k) => format!("history {k}"),
         Op::State => "state".into(),
     }
 }
@@ -213,6 +257,7 @@ fn gen_ops(r: &mut Rng, allow_stale_rollback: bool) -> Vec<Op> {
     let mut nws = 0usize;
     let mut dirs: Vec<u64> = Vec::new();
     let mut val = 1u64;
+    let mut last_put: BTreeMap<u64, u64> = BTreeMap::new(); // last value any workspace wrote under a key (CAS expectations)
     let mut committed_since: Vec<bool> = Vec::new(); // per ws: has some commit happened since its begin
     for _ in 0..n {
         let c = r.below(100);
@@ -225,11 +270,23 @@ fn gen_ops(r: &mut Rng, allow_stale_rollback: bool) -> Vec<Op> {
         } else if c < 60 {
             let w = r.below(nws as u64) as usize;
             let k = if dirs[w] == 0 { r.below(5) } else { 100 * dirs[w] + r.below(2) };
-            if r.chance(1, 5) {
-                ops.push(Op::Del(w, k));
-            } else {
-                ops.push(Op::Put(w, k, val));
-                val += 1;
+            match r.below(10) {
+                0 | 1 => ops.push(Op::Del(w, k)),
+                2 | 3 => {
+                    let e = match r.below(4) {
+                        0 => None,
+                        1 => Some(1 + r.below(val)),
+                        _ => last_put.get(&k).copied(),
+                    };
+                    ops.push(Op::Cas(w, k, e, val));
+                    last_put.insert(k, val);
+                    val += 1;
+                }
+                _ => {
+                    ops.push(Op::Put(w, k, val));
+                    last_put.insert(k, val);
+                    val += 1;
+                }
             }
         } else if c < 80 {
             let w = r.below(nws as u64) as usize;
@@ -237,15 +294,22 @@ fn gen_ops(r: &mut Rng, allow_stale_rollback: bool) -> Vec<Op> {
             for x in committed_since.iter_mut() {
                 *x = true;
             }
-        } else if c < 90 {
+        } else if c < 88 {
             let w = r.below(nws as u64) as usize;
             if allow_stale_rollback || !committed_since[w] {
                 ops.push(Op::Rollback(w));
             }
+        } else if c < 92 {
+            ops.push(Op::Reopen);
+        } else if c < 95 {
+            let keys: Vec<u64> = last_put.keys().copied().collect();
+            ops.push(Op::History(if keys.is_empty() { r.below(5) } else { *r.pick(&keys) }));
         } else {
             ops.push(Op::State);
         }
     }
+    let keys: Vec<u64> = last_put.keys().copied().collect();
+    ops.push(Op::History(if keys.is_empty() { r.below(5) } else { *r.pick(&keys) }));
     ops.push(Op::State);
     ops
 }
@@ -257,15 +321,29 @@ struct WsOutcome {
     hits: Vec<String>,
 }
 
+/// the node identity of the workspace streams (fixed, so that a restart can re-create the same node)
+fn node_identity() -> Identity {
+    Identity::from_bytes(&[7u8; 32]).unwrap()
+}
+fn meta_height(store: &TensorStore) -> String {
+    match store.get("chain:meta").ok().and_then(|d| d.get("height").cloned()) {
+        Some(TensorValue::Scalar(ScalarValue::Int(h))) => h.to_string(),
+        _ => "none".into(),
+    }
+}
+fn show_history(h: &[(u64, Transaction)]) -> String {
+    show_list(h.iter().map(|(h, t)| format!("{h}:{}", show_real_tx(t))).collect(), false)
+}
+
 /// Run one op list on a fresh real `TensorChain` and on the model.
-fn run_ws_case(m: &mut Model, ops: &[Op], max_txs: usize, auto_merge: bool) -> WsOutcome {
+fn run_ws_case(m: &mut Model, ops: &[Op], max_txs: usize, auto_merge: bool, max_merge: usize) -> WsOutcome {
     let mut out = WsOutcome { disagreements: vec![], violations: vec![], nontrivial: false, hits: vec![] };
     let store = TensorStore::new();
     let mut cfg = ChainConfig::new("n").with_max_txs(max_txs);
-    cfg.auto_merge = AutoMergeConfig { enabled: auto_merge, orthogonal_threshold: 0.1, max_merge_batch: 10, merge_window_ms: u64::MAX / 4 };
-    let tc = TensorChain::with_config(store.clone(), cfg);
+    cfg.auto_merge = AutoMergeConfig { enabled: auto_merge, orthogonal_threshold: 0.1, max_merge_batch: max_merge, merge_window_ms: u64::MAX / 4 };
+    let mut tc = TensorChain::with_identity(store.clone(), cfg.clone(), node_identity());
     tc.initialize().unwrap();
-    m.ask(&format!("init {max_txs} {} 10 0", u8::from(auto_merge)));
+    m.ask(&format!("init {max_txs} {} {max_merge} 0", u8::from(auto_merge)));
     let mut wss: Vec<Arc<TransactionWorkspace>> = Vec::new();
     // oracle state: what the chain should contain if every commit is atomic and nothing else touches it
     let mut expect_blocks: u64 = 0;
@@ -292,6 +370,10 @@ fn run_ws_case(m: &mut Model, ops: &[Op], max_txs: usize, auto_merge: bool) -> W
                 let r = wss[*w].add_operation(Tx::Del(*k).real());
                 (r.map_or_else(|e| verr(&e), |()| "ok".into()), m.ask(&format!("del {w} {k}")), "del")
             }
+            Op::Cas(w, k, e, v) => {
+                let r = wss[*w].add_operation(Tx::Cas(*k, *e, *v).real());
+                (r.map_or_else(|e| verr(&e), |()| "ok".into()), m.ask(&show_op(op)), "cas")
+            }
             Op::Commit(w) => {
                 let before_h = tc.height();
                 let before_img = data_image(&store);
@@ -305,30 +387,13 @@ fn run_ws_case(m: &mut Model, ops: &[Op], max_txs: usize, auto_merge: bool) -> W
                         let h = tc.height();
                         let b = read_block(&store, h);
                         let txs = b.as_ref().map(|b| b.transactions.iter().map(show_real_tx).collect::<Vec<_>>()).unwrap_or_default();
-                        let merged: Vec<String> = wss
-                            .iter()
-                            .enumerate()
-                            .filter(|(j, x)| *j != *w && x.state() == TransactionState::Committed && b.as_ref().is_some_and(|b| !x.operations().is_empty() && x.operations().iter().all(|o| b.transactions.contains(o))) && false)
-                            .map(|(j, _)| j.to_string())
-                            .collect();
-                        let _ = merged;
                         // oracle: exactly one new block holding the ops; all writes applied
                         if h != before_h + 1 {
                             out.violations.push(("tensor_chain.commit/not_one_new_block".into(), format!("op {i}: height {before_h} -> {h}")));
                         }
                         if let Some(b) = &b {
                             for t in &b.transactions {
-                                match t {
-                                    Transaction::Put { key, data } => {
-                                        let mut a = [0u8; 8];
-                                        a.copy_from_slice(&data[..8]);
-                                        expect_data.insert(key[1..].parse().unwrap(), u64::from_le_bytes(a));
-                                    }
-                                    Transaction::Delete { key } => {
-                                        expect_data.remove(&key[1..].parse::<u64>().unwrap());
-                                    }
-                                    _ => {}
-                                }
+                                apply_to_image(&mut expect_data, t);
                             }
                             for o in wss[*w].operations() {
                                 if !b.transactions.contains(&o) {
@@ -359,18 +424,49 @@ fn run_ws_case(m: &mut Model, ops: &[Op], max_txs: usize, auto_merge: bool) -> W
                 let r = tc.rollback(&wss[*w]);
                 (r.map_or_else(|e| verr(&e), |()| "ok".into()), m.ask(&format!("rollback {w}")), "rollback")
             }
+            Op::Reopen => {
+                let before = chain_snap(&tc, &store);
+                tc = TensorChain::with_identity(store.clone(), cfg.clone(), node_identity());
+                let init = tc.initialize();
+                ts += 1;
+                let after = chain_snap(&tc, &store);
+                // oracle (implementation only): a restart of a healthy node changes nothing
+                if !broken && (init.is_err() || after != before) {
+                    out.violations.push((
+                        "tensor_chain.initialize/restart_changed_chain".into(),
+                        format!("op {i}: new TensorChain over the same store + initialize() = {:?}: {}", init.as_ref().map_err(|e| e.to_string()), snap_diff(&before, &after).join("; ")),
+                    ));
+                }
+                let imp = format!("{} meta={} active={}", state_line(&tc, &store), meta_height(&store), tc.active_transactions());
+                let a = m.ask(&format!("reopen {ts}"));
+                (imp, format!("{a} meta={} active={}", m.ask("meta"), m.ask("active")), "reopen")
+            }
+            Op::History(k) => {
+                let h = tc.history(&format!("d{k}"));
+                let imp = h.as_ref().map_or_else(|e| verr(e), |h| show_history(h));
+                // oracle (implementation only): the value under a key is the replay of the key's own history
+                if let (false, Ok(h)) = (broken, &h) {
+                    let mut img = BTreeMap::new();
+                    for (_, t) in h {
+                        apply_to_image(&mut img, t);
+                    }
+                    let cur = data_image(&store).get(k).copied();
+                    if img.get(k).copied() != cur {
+                        out.violations.push(("tensor_chain.history/value_not_replay_of_history".into(), format!("op {i}: key d{k}: store has {cur:?}, replaying history(d{k}) = [{imp}] gives {:?}", img.get(k))));
+                    }
+                }
+                (imp, m.ask(&format!("history {k}")), "history")
+            }
             Op::State => {
-                let imp = format!(
-                    "h={} verify={} blocks={} data={}",
-                    tc.height(),
-                    vres(tc.verify()),
-                    show_heights(&blocks_present(&store)),
-                    show_image(&data_image(&store))
-                );
-                (imp, m.ask("state"), "state")
+                let imp = format!("{} meta={}", state_line(&tc, &store), meta_height(&store));
+                (imp, format!("{} meta={}", m.ask("state"), m.ask("meta")), "state")
             }
         };
-        out.hits.push(format!("ws.{tag}.{}", imp.split(' ').take(2).collect::<Vec<_>>().join("_").replace(|c: char| c.is_ascii_digit() || c == '=', "")));
+        if tag == "history" {
+            out.hits.push(format!("ws.history.{}", if imp == "-" { "empty" } else if imp.contains(",") { "several" } else { "one" }));
+        } else {
+            out.hits.push(format!("ws.{tag}.{}", imp.split(' ').take(2).collect::<Vec<_>>().join("_").replace(|c: char| c.is_ascii_digit() || c == '=', "")));
+        }
         if imp != model {
             out.disagreements.push((format!("op {i} {}", show_op(op)), imp.clone(), model));
         }
@@ -386,6 +482,7 @@ fn run_ws_case(m: &mut Model, ops: &[Op], max_txs: usize, auto_merge: bool) -> W
                 let (class, what) = match op {
                     Op::Rollback(_) => ("tensor_chain.rollback/stale_checkpoint_wipes_committed_block", "rollback of a workspace begun before a later commit restored the whole store to its checkpoint"),
                     Op::Commit(_) => ("tensor_chain.commit/sequential_commit_not_atomic", "after a sequential commit chain/store are not (one new block + all writes) or untouched"),
+                    Op::Reopen => ("tensor_chain.initialize/restart_lost_chain", "after a restart (new TensorChain over the same store + initialize()) height / blocks / verify / data are not those of before"),
                     _ => ("tensor_chain.workspace/op_changed_chain_or_store", "a non-commit op changed chain or store"),
                 };
                 out.violations.push((
@@ -415,6 +512,7 @@ enum LOp {
     Begin(u64),
     Put(usize, u64, u64),
     Del(usize, u64),
+    Cas(usize, u64, Option<u64>, u64),
     Commit(usize),
     Rollback(usize),
     Unreg,
@@ -426,6 +524,7 @@ fn show_lop(o: &LOp) -> String {
         LOp::Begin(d) => format!("begin dir={d}"),
         LOp::Put(w, k, v) => format!("put {w} {k} {v}"),
         LOp::Del(w, k) => format!("del {w} {k}"),
+        LOp::Cas(w, k, e, v) => format!("cas {w} {k} {} {v}", e.map_or("-".to_string(), |e| e.to_string())),
         LOp::Commit(w) => format!("commit {w}"),
         LOp::Rollback(w) => format!("rollback {w}"),
         LOp::Unreg => "unregister own key".into(),
@@ -438,7 +537,7 @@ fn lops_well_formed(ops: &[LOp]) -> bool {
     for o in ops {
         match o {
             LOp::Begin(_) => n += 1,
-            LOp::Put(w, ..) | LOp::Del(w, _) | LOp::Commit(w) | LOp::Rollback(w) => {
+            LOp::Put(w, ..) | LOp::Del(w, _) | LOp::Cas(w, ..) | LOp::Commit(w) | LOp::Rollback(w) => {
                 if *w >= n {
                     return false;
                 }
@@ -582,6 +681,10 @@ fn run_late_case(m: &mut Model, ops: &[LOp], max_txs: usize, auto_merge: bool) -
                 let r = wss[*w].add_operation(Tx::Del(*k).real());
                 (r.map_or_else(|e| verr(&e), |()| "ok".into()), m.ask(&format!("del {w} {k}")), "del")
             }
+            LOp::Cas(w, k, e, v) => {
+                let r = wss[*w].add_operation(Tx::Cas(*k, *e, *v).real());
+                (r.map_or_else(|e| verr(&e), |()| "ok".into()), m.ask(&show_lop(op)), "cas")
+            }
             LOp::Commit(w) => {
                 let nops = wss[*w].operation_count();
                 let was_active = wss[*w].is_active();
@@ -603,7 +706,7 @@ fn run_late_case(m: &mut Model, ops: &[LOp], max_txs: usize, auto_merge: bool) -
                         let mut diff = snap_diff(&before, &after);
                         // the failed workspace's writes must be absent (implied by the dump; said explicitly)
                         for o in wss[*w].operations() {
-                            if let Transaction::Put { key, .. } | Transaction::Delete { key } = &o {
+                            if let Transaction::Put { key, .. } | Transaction::Delete { key } | Transaction::CompareAndSwap { key, .. } = &o {
                                 if before.dump.get(key) != after.dump.get(key) {
                                     diff.push(format!("operation of the failed workspace visible in the store: {}", show_real_tx(&o)));
                                 }
@@ -691,12 +794,27 @@ fn gen_late_case(r: &mut Rng, kind: &str, k: u64, prefix: u64) -> LateCase {
         nws += 1;
         nws - 1
     };
+    let mut last_put: BTreeMap<u64, u64> = BTreeMap::new();
     let mut write = |ops: &mut Vec<LOp>, r: &mut Rng, w: usize, key: u64| {
-        if r.chance(1, 5) {
-            ops.push(LOp::Del(w, key));
-        } else {
-            ops.push(LOp::Put(w, key, val));
-            val += 1;
+        match r.below(10) {
+            0 | 1 => ops.push(LOp::Del(w, key)),
+            2 | 3 => {
+                // compare-and-swap: expecting the last value written under the key (succeeds if that write is in the
+                // store when the operation is applied), nothing, or a value never written
+                let e = match r.below(4) {
+                    0 => None,
+                    1 => Some(9_000_000 + val),
+                    _ => last_put.get(&key).copied(),
+                };
+                ops.push(LOp::Cas(w, key, e, val));
+                last_put.insert(key, val);
+                val += 1;
+            }
+            _ => {
+                ops.push(LOp::Put(w, key, val));
+                last_put.insert(key, val);
+                val += 1;
+            }
         }
     };
     for _ in 0..prefix {
@@ -928,6 +1046,9 @@ fn mutate_block(rc: &RawChain, b: &Block, field: &str, variant: &str) -> Option<
                     Transaction::Put { key: key.clone(), data: (u64::from_le_bytes(a) + 1).to_le_bytes().to_vec() }
                 }
                 Transaction::Delete { key } => Transaction::Put { key: key.clone(), data: 1u64.to_le_bytes().to_vec() },
+                Transaction::CompareAndSwap { key, expected_data, new_data } => {
+                    Transaction::CompareAndSwap { key: key.clone(), expected_data: expected_data.clone(), new_data: (le8(new_data) + 1).to_le_bytes().to_vec() }
+                }
                 _ => return None,
             };
         }
@@ -950,11 +1071,21 @@ fn mutate_block(rc: &RawChain, b: &Block, field: &str, variant: &str) -> Option<
 fn gen_txs(r: &mut Rng, n: usize, val: &mut u64) -> Vec<Tx> {
     (0..n)
         .map(|_| {
-            if r.chance(1, 6) {
-                Tx::Del(r.below(6))
-            } else {
-                *val += 1;
-                Tx::Put(r.below(6), *val)
+            match r.below(12) {
+                0 | 1 => Tx::Del(r.below(6)),
+                2 => {
+                    *val += 1;
+                    Tx::Cas(r.below(6), None, *val)
+                }
+                3 => {
+                    // expects a value written earlier in this chain (the values are 1..=val)
+                    *val += 1;
+                    Tx::Cas(r.below(6), Some(1 + r.below(*val)), *val)
+                }
+                _ => {
+                    *val += 1;
+                    Tx::Put(r.below(6), *val)
+                }
             }
         })
         .collect()
@@ -1154,7 +1285,7 @@ fn thread_trace(trace: &[Step], t: usize) -> String {
         let np = park_phase(ph, s.site, &s.key);
         match np {
             UA => {}
-            UB => apply.push(format!("{}:{}", match s.site { "store.put" => "put", "store.delete" => "del", o => o }, s.key.trim_start_matches('d'))),
+            UB => apply.push(format!("{}:{}", match s.site { "store.put" => "put", "store.delete" => "del", "store.get" => "get", o => o }, s.key.trim_start_matches('d'))),
             UC => {
                 if ph != UC {
                     root = "scan".into();
@@ -1271,6 +1402,9 @@ fn main() {
     for case in 0..250 * scale {
         let max_txs = if r.chance(1, 4) { 3 } else { 1000 };
         let auto_merge = r.chance(1, 2);
+        // `max_merge_batch`: 10 never truncates the candidate list (at most 6 workspaces); 0 merges nothing although
+        // auto-merge is on.  (A batch limit below the number of candidates picks by `HashMap` iteration order.)
+        let max_merge: usize = if auto_merge && r.chance(1, 5) { 0 } else { 10 };
         // half of the cases stay inside the rollback-safe fragment so that the rest of the pipeline is
         // compared on healthy chains too
         let stale = case % 2 == 0;
@@ -1279,8 +1413,8 @@ fn main() {
             // directed minimal scenario, independent of the seed: rollback of a workspace begun before a commit
             ops = vec![Op::Begin(0), Op::Put(0, 1, 1), Op::Begin(0), Op::Commit(0), Op::Rollback(1), Op::State];
         }
-        let out = run_ws_case(&mut m, &ops, max_txs, auto_merge);
-        let text = format!("{max_txs} {auto_merge} {}", ops.iter().map(show_op).collect::<Vec<_>>().join(";"));
+        let out = run_ws_case(&mut m, &ops, max_txs, auto_merge, max_merge);
+        let text = format!("{max_txs} {auto_merge} {max_merge} {}", ops.iter().map(show_op).collect::<Vec<_>>().join(";"));
         for h in &out.hits {
             rep.hit(h);
         }
@@ -1296,19 +1430,19 @@ fn main() {
                 for o in cand {
                     match o {
                         Op::Begin(_) => n += 1,
-                        Op::Put(w, ..) | Op::Del(w, _) | Op::Commit(w) | Op::Rollback(w) => {
+                        Op::Put(w, ..) | Op::Del(w, _) | Op::Cas(w, ..) | Op::Commit(w) | Op::Rollback(w) => {
                             if *w >= n {
                                 return false;
                             }
                         }
-                        Op::State => {}
+                        Op::State | Op::Reopen | Op::History(_) => {}
                     }
                 }
-                run_ws_case(&mut m, cand, max_txs, auto_merge).violations.iter().any(|v| v.0 == class)
+                run_ws_case(&mut m, cand, max_txs, auto_merge, max_merge).violations.iter().any(|v| v.0 == class)
             };
             let small = if rep.violations.iter().any(|v| v["class"] == class.as_str()) { ops.clone() } else { shrink_list(&ops, &mut fails) };
-            let what = run_ws_case(&mut m, &small, max_txs, auto_merge).violations.into_iter().find(|v| v.0 == class).map(|v| v.1).unwrap_or_else(|| out.violations[0].1.clone());
-            violation(&mut rep, &class, &what, json!({"stream": "workspace", "max_txs": max_txs, "auto_merge": auto_merge, "ops": small.iter().map(show_op).collect::<Vec<_>>()}));
+            let what = run_ws_case(&mut m, &small, max_txs, auto_merge, max_merge).violations.into_iter().find(|v| v.0 == class).map(|v| v.1).unwrap_or_else(|| out.violations[0].1.clone());
+            violation(&mut rep, &class, &what, json!({"stream": "workspace", "max_txs": max_txs, "auto_merge": auto_merge, "max_merge_batch": max_merge, "ops": small.iter().map(show_op).collect::<Vec<_>>()}));
             for v in out.violations.iter().skip(1) {
                 if v.0 != class {
                     violation(&mut rep, &v.0, &v.1, json!({"stream": "workspace", "max_txs": max_txs, "auto_merge": auto_merge, "ops": ops.iter().map(show_op).collect::<Vec<_>>()}));
@@ -1324,7 +1458,7 @@ fn main() {
     // ---------------- stream A2: directed merge scenario (auto-merge on: orthogonal workspaces end in one block)
     for auto_merge in [true, false] {
         let ops = vec![Op::Begin(1), Op::Begin(2), Op::Begin(3), Op::Put(0, 100, 1), Op::Put(1, 200, 2), Op::Put(2, 300, 3), Op::Commit(0), Op::State, Op::Commit(1), Op::Commit(2), Op::State];
-        let out = run_ws_case(&mut m, &ops, 1000, auto_merge);
+        let out = run_ws_case(&mut m, &ops, 1000, auto_merge, 10);
         for (op, imp, model) in &out.disagreements {
             rep.disagree("workspace.merge", json!({"auto_merge": auto_merge, "at": op}), imp, model);
         }
@@ -1808,7 +1942,8 @@ fn main() {
     {
         let c = conc_setup(0, false, false, false, false);
         let w = c.tc.begin().unwrap();
-        let ops = [Tx::Put(1, 1), Tx::Del(7), Tx::Put(2, 5)];
+        // the two compare-and-swaps: one succeeds (read + write), one fails (read only)
+        let ops = [Tx::Put(1, 1), Tx::Del(7), Tx::Put(2, 5), Tx::Cas(1, Some(1), 9), Tx::Cas(3, Some(4), 8)];
         for o in &ops {
             w.add_operation(o.real()).unwrap();
         }
@@ -1819,6 +1954,7 @@ fn main() {
             match o {
                 Tx::Put(k, v) => m.ask(&format!("put 0 {k} {v}")),
                 Tx::Del(k) => m.ask(&format!("del 0 {k}")),
+                Tx::Cas(k, e, v) => m.ask(&format!("cas 0 {k} {} {v}", e.map_or("-".to_string(), |e| e.to_string()))),
             };
         }
         let want = m.ask("ctrace 0");
